@@ -53,6 +53,7 @@ func checkC11(c *Ctx) {
 	for _, p := range r.Ex.Panics {
 		c.R.Fail("C11-1", "RecoverPublicKey/no-panic", PosStr(prog, p.Pos), fmt.Sprintf("a panic (%s) is reachable when {%s}", p.Msg, GuardString(p.Guard)))
 	}
+	indexSafety(c, "C11-1", "RecoverPublicKey", pos, r)
 	acc, prob := acceptFormula(r, 1)
 	if prob != "" {
 		c.R.Unknown("C11-1", "RecoverPublicKey", pos, prob)
